@@ -498,7 +498,7 @@ static bool interp() {
       // nothing answers them.  The `iter` lines that follow carry the frames to the peer; every id on the wire must be
       // distinct ("call ids on a channel are unique even when calls are issued from several threads").
       int n = atoi(w[2].c_str()), k = atoi(w[3].c_str());
-      if (n >= 1 && n <= 16 && k >= 1 && k <= 100000) {
+      if (n >= 1 && n <= 16 && k >= 1 && k <= 100000 && g_nreg.load() + n * k <= 60000) {   // (the response registry holds 65536)
         std::vector<std::thread> ts;
         int first = ch->nextTag;
         for (int i = 0; i < n; ++i) ts.push_back(std::thread([ch, first, i, k] { for (int j = 0; j < k; ++j) oneCall(ch, first + i * k + j, 0); }));
